@@ -1,6 +1,7 @@
 package eng
 
 import (
+	"sync"
 	"time"
 	"fmt"
 	"go/constant"
@@ -111,6 +112,7 @@ type Engine struct {
 	curPos  token.Pos
 	threads *threadState
 	asserts int
+	views   map[string]*Object
 	crypto  map[string]*Term
 	keyAuthor, keyOther *IfaceV
 	verifyCalls int
@@ -378,7 +380,12 @@ func (e *Engine) cfgOf(fn *ssa.Function) *FuncCFG {
 	return c
 }
 
+var buildMu sync.Mutex
+
 func (e *Engine) ensureBody(fn *ssa.Function) {
+	// harnesses run in parallel on one ssa.Program: serialise on-demand building of dependency packages
+	buildMu.Lock()
+	defer buildMu.Unlock()
 	if fn.Blocks == nil && fn.Pkg != nil {
 		fn.Pkg.Build()
 	}
@@ -1010,6 +1017,9 @@ func (e *Engine) readObj(o *Object, path []PathEl) Value {
 	case OCell, OOpaque, OCtx:
 		return e.readPathVal(o.V, path)
 	case OArr:
+		if o.ViewOf != nil {
+			return e.readObj(o.ViewOf, append(append([]PathEl(nil), o.ViewPath...), path...))
+		}
 		if len(path) == 0 {
 			return &ArrayV{o.E}
 		}
@@ -1074,6 +1084,10 @@ func (e *Engine) writeObj(o *Object, path []PathEl, v Value, g *Term) {
 		o.V = e.writePathVal(o.V, path, v, g)
 		return
 	case OArr:
+		if o.ViewOf != nil {
+			e.writeObj(o.ViewOf, append(append([]PathEl(nil), o.ViewPath...), path...), v, g)
+			return
+		}
 		if len(path) == 0 {
 			av := v.(*ArrayV)
 			for k := range o.E {
@@ -1593,12 +1607,12 @@ func (e *Engine) bytesToString(s *SliceV, pos token.Pos) *StrV {
 				if tb.And(e.G, g).IsFalse() {
 					continue
 				}
-				out = append(out, e.mkStrAlt(g, a.Arr.E[off:off+n]))
+				out = append(out, e.mkStrAlt(g, e.arrCells(a.Arr)[off:off+n]))
 			}
 			continue
 		}
 		off, n := int(a.Off.C), int(a.Len.C)
-		out = append(out, e.mkStrAlt(a.G, a.Arr.E[off:off+n]))
+		out = append(out, e.mkStrAlt(a.G, e.arrCells(a.Arr)[off:off+n]))
 	}
 	// coalesce equal concrete strings
 	var res []StrAlt
@@ -1930,7 +1944,28 @@ func (e *Engine) arrayObjFor(a PtrAlt, at *types.Array) *Object {
 			return a.Obj
 		}
 	}
-	panic(e.unsupported("slicing an array embedded in another object (path %v)", a.Path))
+	// an array embedded in a larger object (struct field, array element): a view object that delegates every
+	// read and write to the embedding object
+	key := fmt.Sprintf("%d:%v", a.Obj.ID, a.Path)
+	if v, ok := e.views[key]; ok {
+		return v
+	}
+	v := e.newObj(OArr, at.Elem(), "view:"+a.Obj.Site)
+	v.ViewOf, v.ViewPath = a.Obj, append([]PathEl(nil), a.Path...)
+	v.E = make([]Value, int(at.Len()))
+	if e.views == nil {
+		e.views = map[string]*Object{}
+	}
+	e.views[key] = v
+	return v
+}
+
+// arrCells returns the current cells of an array object (views read through to the embedding object).
+func (e *Engine) arrCells(o *Object) []Value {
+	if o.ViewOf == nil {
+		return o.E
+	}
+	return e.readObj(o.ViewOf, o.ViewPath).(*ArrayV).E
 }
 
 func (e *Engine) subStr(a StrAlt, g *Term, lo, hi int) StrAlt {
@@ -2004,7 +2039,7 @@ func (e *Engine) sliceElem(a SliceAlt, i *Term) Value {
 		return e.zero(a.Arr.Typ)
 	}
 	cell := e.tb.BVOp(OpAdd, a.Off, i)
-	return e.selectElem(a.Arr.E, cell)
+	return e.selectElem(e.arrCells(a.Arr), cell)
 }
 
 // lenUB / capLB: bounds of a slice alternative valid on every path where it is live.
@@ -2267,7 +2302,18 @@ func (e *Engine) copyOp(dst *SliceV, src Value, pos token.Pos) Value {
 		}
 	case *StrV:
 		if len(sv.Alts) != 1 {
-			panic(e.unsupported("copy from string union"))
+			total := tb.Int(0)
+			G0 := e.G
+			for _, a := range sv.Alts {
+				e.G = tb.And(G0, a.G)
+				if e.G.IsFalse() {
+					continue
+				}
+				n := e.copyOp(dst, &StrV{[]StrAlt{{G: tb.True, S: a.S, Sym: a.Sym}}}, pos).(*Term)
+				total = tb.Ite(a.G, n, total)
+			}
+			e.G = G0
+			return total
 		}
 		n := e.strAltLen(sv.Alts[0])
 		srcLen = tb.Int(int64(n))
